@@ -102,14 +102,33 @@ def g_blobs(desc):
     elif top == "cdn" and d is not None:
         dl, du = (d, 0.0) if d > 0 else (0.0, -d)
     if top == "lsn":
-        return [(r0, zc, wr, wz, 1.0), (r0, zc - sep, wr, wz, 1.0)]
-    if top == "usn":
-        return [(r0, zc, wr, wz, 1.0), (r0, zc + sep, wr, wz, 1.0)]
-    return [
-        (r0, zc, wr, wz, 1.0),
-        (r0, zc - sep - dl, wr, wz, 1.0),
-        (r0, zc + sep + du, wr, wz, 1.0),
-    ]
+        blobs = [(r0, zc, wr, wz, 1.0), (r0, zc - sep, wr, wz, 1.0)]
+    elif top == "usn":
+        blobs = [(r0, zc, wr, wz, 1.0), (r0, zc + sep, wr, wz, 1.0)]
+    else:
+        blobs = [
+            (r0, zc, wr, wz, 1.0),
+            (r0, zc - sep - dl, wr, wz, 1.0),
+            (r0, zc + sep + du, wr, wz, 1.0),
+        ]
+    # affine map of the whole configuration (see g_geom): R' = R + rshift, Z' = zscale * Z
+    rs, zs = g_geom(desc)[:2]
+    return [(r + rs, z * zs, a, b * zs, c) for r, z, a, b, c in blobs]
+
+
+def g_geom(desc):
+    """(rshift, zscale, rmax_extra) of a G descriptor. The reference configuration lives in the box
+    R in [1, 2 + rmax_extra], Z in [-0.7, 0.7]; psi, box and wall are mapped by R' = R + rshift,
+    Z' = zscale * Z (a 'spherical-tokamak-like' tall, small-R box for rshift < 0, zscale > 1)."""
+    g = desc.get("geom") or {}
+    return float(g.get("rshift", 0.0)), float(g.get("zscale", 1.0)), float(g.get("rmax_extra", 0.0))
+
+
+def g_box(desc):
+    if "box" in desc:
+        return list(desc["box"])
+    rs, zs, ex = g_geom(desc)
+    return [1.0 + rs, 2.0 + ex + rs, -0.7 * zs, 0.7 * zs]
 
 
 def g_function(desc):
@@ -140,7 +159,7 @@ def cubic(c, t):
 def g_inputs(desc):
     f = g_function(desc)
     nR, nZ = desc.get("nR", 65), desc.get("nZ", 65)
-    box = desc.get("box", [1.0, 2.0, -0.7, 0.7])
+    box = g_box(desc)
     R1D = numpy.linspace(box[0], box[1], nR)
     Z1D = numpy.linspace(box[2], box[3], nZ)
     R2, Z2 = numpy.meshgrid(R1D, Z1D, indexing="ij")
@@ -156,7 +175,7 @@ def g_inputs(desc):
     fpol1D = numpy.array([]) if fc is None else cubic(fc, psin)
     pc = desc.get("pres")
     pressure = None if pc is None else cubic(pc, psin)
-    wall = wall_polygon(desc.get("wall", {"kind": "rect"}), box)
+    wall = g_wall(desc)
     return {
         "R1D": R1D,
         "Z1D": Z1D,
@@ -173,12 +192,22 @@ def g_inputs(desc):
 # ----------------------------------------------------------------------------------------
 # walls
 # ----------------------------------------------------------------------------------------
+def g_wall(desc):
+    """Wall of a G descriptor: built in the reference box, then mapped like psi."""
+    if "box" in desc:
+        return wall_polygon(desc.get("wall", {"kind": "rect"}), desc["box"])
+    rs, zs, ex = g_geom(desc)
+    ref = wall_polygon(desc.get("wall", {"kind": "rect"}), [1.0, 2.0 + ex, -0.7, 0.7])
+    return [(float(r + rs), float(z * zs)) for r, z in ref]
+
+
 def wall_polygon(w, box):
     """Wall vertices [(R,Z),...] from a wall descriptor.
 
     kind 'rect'    : rectangle inset by w['inset'] (default 0.2) - as the shipped example
     kind 'chamfer' : rectangle with the four corners cut by w['cut'][k] (slanted targets)
     kind 'tilt'    : rectangle whose bottom/top edges are tilted by w['tilt'] (rad)
+    kind 'baffle'  : rectangle with a thin spike from the outboard side (zb, rt, th): non-convex
     'subdiv' n     : every edge split into n pieces, points displaced along the edge normal
                      by w['bumps'][i] (cycled; metres); star-shapedness about the box centre
                      is preserved for |bump| << inset
@@ -190,6 +219,11 @@ def wall_polygon(w, box):
     kind = w.get("kind", "rect")
     if kind == "rect":
         pts = [(rmin, zmin), (rmax, zmin), (rmax, zmax), (rmin, zmax)]
+    elif kind == "baffle":
+        # rectangle with a thin re-entrant spike ('baffle') reaching in from the outboard side at
+        # height zb to the tip radius rt: a non-convex wall, not star-shaped about the box centre
+        zb, rt, th = w["zb"], w["rt"], w.get("th", 0.01)
+        pts = [(rmin, zmin), (rmax, zmin), (rmax, zb - th), (rt, zb), (rmax, zb + th), (rmax, zmax), (rmin, zmax)]
     elif kind == "chamfer":
         c = w.get("cut", [0.1, 0.1, 0.1, 0.1])
         pts = [
